@@ -188,21 +188,40 @@ func (s String) Has(value Value) bool {
 }
 
 func (s String) with(at int, char rune) Set {
-	i := s.index(at)
+	i := at - s.offset
 	switch {
+	case char < 0:
+		// Negative runes mark holes and cannot be stored.
 	case 0 <= i && i < len(s.s) && s.s[i] == char:
 		return s
-	case i == len(s.s):
-		return String{s: append(s.s, char), offset: s.offset, holes: s.holes}
-	case at == s.offset-1:
-		return String{
-			s:      append(append(make([]rune, 0, 1+len(s.s)), char), s.s...),
-			offset: s.offset - 1,
-			holes:  s.holes,
+	case 0 <= i && i < len(s.s) && s.s[i] < 0:
+		// Fill a hole.
+		newS := make([]rune, len(s.s))
+		copy(newS, s.s)
+		newS[i] = char
+		return String{s: newS, offset: s.offset, holes: s.holes - 1}
+	case i >= len(s.s):
+		// Append, leaving holes in any gap. Always copy: s.s may share its
+		// backing array with other strings.
+		newS := make([]rune, i+1)
+		copy(newS, s.s)
+		for j := len(s.s); j < i; j++ {
+			newS[j] = -1
 		}
+		newS[i] = char
+		return String{s: newS, offset: s.offset, holes: s.holes + i - len(s.s)}
+	case i < 0:
+		// Prepend, leaving holes in any gap.
+		newS := make([]rune, len(s.s)-i)
+		newS[0] = char
+		for j := 1; j < -i; j++ {
+			newS[j] = -1
+		}
+		copy(newS[-i:], s.s)
+		return String{s: newS, offset: at, holes: s.holes - i - 1}
 	}
-	// TODO: Support adding holes and doubling up chars, removing the need to
-	// call newGenericSetFromSet here.
+	// TODO: Support doubling up chars, removing the need to call
+	// newGenericSetFromSet here.
 	return newGenericSetFromSet(s).With(NewStringCharTuple(at, char))
 }
 
